@@ -105,17 +105,20 @@ public:
   {
     if(&other != this)
     {
-      if(other.data->ref)
+      // other may be an element of the payload that clear() releases: read it first
+      Data* otherData = other.data;
+      if(otherData->ref)
       {
-        Atomic::increment(other.data->ref);
+        Atomic::increment(otherData->ref);
         clear();
-        data = other.data;
+        data = otherData;
       }
       else //if(&other != this)
       {
+        Data otherValue = *otherData;
         clear();
         data = &_data;
-        _data = *other.data;
+        _data = otherValue;
       }
     }
     return *this;
